@@ -984,6 +984,27 @@ def _check_algebra(check, an: Analysis, classes):
                    where_fn(an.method(COMPARISON, '__invert__')),
                    'complement map of the six comparison operators (an involution): %s'
                    % pairs)
+    # ... which is the negation only where the compared values are totally ordered.  The
+    # resource levels compare field by field, all fields joined with `and` (the generated
+    # methods of `_resource_level.__comparison_op__`): a partial order, for which
+    # `not (a > b)` is *not* `a <= b`
+    maker = an.p.functions.get('usim._basics._resource_level.__comparison_op__')
+    conjoined = maker is not None and any(
+        isinstance(n, ast.JoinedStr) and any(
+            isinstance(v, ast.Constant) and isinstance(v.value, str)
+            and v.value.strip().startswith('and ') for v in n.values)
+        for n in ast.walk(maker.node))
+    tracked_levels = any(
+        isinstance(n, ast.Call) and ast.unparse(n.func).split('.')[-1] == 'Tracked'
+        for fn in an.p.functions.values() if fn.module.name == 'usim._basics.resource'
+        for n in ast.walk(fn.node))
+    check.instance('B', 'ResourceLevels:complement-of-fieldwise-comparison',
+                   not (conjoined and tracked_levels),
+                   where_fn(maker) if maker is not None else '',
+                   'the inverse of a comparison is built by complementing the operator; for '
+                   'values that compare field by field with `and` (resource levels with more '
+                   'than one field) the complemented operator is not the negation: both `c` '
+                   'and `~c` can be false')
     forms = returned_forms(an, an.callee(COMPARISON, '__invert__'))
     ok = bool(forms) and all(
         isinstance(node, ast.Call) and not node.keywords and [ast.unparse(a) for a in node.args]
